@@ -130,7 +130,7 @@ def registered_strata(ctx):
     core1 = list(docs.d1(docs.CORE_PREFIX, docs.CORE_BODY))
     core2 = list(docs.dn(2, docs.CORE_PREFIX, docs.CORE_BODY)) + list(docs.dn(2, docs.CORE_PREFIX, docs.CORE_BODY, False))
     corpus = list(dict.fromkeys(docs.repo_sources() + [t for _, t in docs.rule_resources()]))
-    pr_base = core1 + docs.sample(ctx.rng, core2, 300 if q else 3000)
+    pr_base = core1 + (docs.sample(ctx.rng, docs.hash_slice(core2, 3000), 300) if q else docs.hash_slice(core2, 3000))
     S = collections.OrderedDict()
     S["core1"] = (core1, True)
     S["full1"] = (list(docs.d1()), True)
@@ -139,6 +139,8 @@ def registered_strata(ctx):
     S["wrap-core1"] = ([wrap(d, k) for d in core1 for k in ("bq", "ul", "ol")], True)
     S["unicode"] = (docs.sample(ctx.rng, unicode_sweep(), 2500) if q else unicode_sweep(), not q)
     S["inline2"] = (inline2(), True)
+    edges = docs.leaf_edges()
+    S["leaf-edges"] = (edges + [wrap(d, k) for d in edges[::3] for k in ("bq", "ul")], True)
     S["pragma"] = (list(dict.fromkeys(x for d in pr_base for x in with_pragma(d))) +
                    [PRAGMA, PRAGMA + "\n", PRAGMA + "\n" + PRAGMA + "\n", "<!--\tpyml -->\na\n", "a\n<!-- pyml\t-->\n"], False)
     return S
@@ -368,6 +370,13 @@ def triage(ctx, name, results, absorbed, samples, frontier=False):
             if not frontier:
                 ctx.known_finding(fmap[fid])
             continue
+        # no footprint: is this exact input (with this symptom) listed in findings/C02.inputs.json?
+        if not frontier:
+            vlib.collect_failure("C02", name.split("-")[0] if False else "roundtrip", doc, sym)
+            base = ctx.__dict__.setdefault("_c02_base", vlib.InputBaseline("C02"))
+            if base.absorbs("roundtrip", doc, sym):
+                cnt["listed-input"] += 1
+                continue
         cnt["unmatched"] += 1
         if frontier:
             if cnt["unmatched"] <= 5:
@@ -420,6 +429,11 @@ def run(ctx):
             ds = list(dict.fromkeys(ds))
             fper[name] = triage(ctx, name, sweep(ds), {}, samples, frontier=True)
         print("FRONTIER summary:", json.dumps(fper))
+    base = ctx.__dict__.get("_c02_base")
+    if base is not None and base.absorbed:
+        f = next((f for f in ctx.findings if f["id"] == "F-RT-INPUTS"), None)
+        if f:
+            ctx.known_finding(f, f"{sum(base.absorbed.values())} listed inputs (findings/C02.inputs.json): " + "; ".join(f"{k} x{v}" for k, v in sorted(base.absorbed.items())))
     if ctx.broken and not ctx.violations:
         ctx.violation({"oracle": "Verif.Props.C02 / codec correspondence no longer checks; no unlisted failing document or string found in the registered strata",
                        "mismatches": [list(x) for x in mism[:10]]}, no_input=True)
